@@ -63,14 +63,17 @@ CONSTANTS Classes,      \* catalogue classes to generate
           Depths,       \* extra nesting levels of the matrix slot, subset of 0..3
           PrefixLens,   \* literal characters in front of the first placeholder, subset of 0..5
           Earliers,     \* clean placeholders before the one under test, subset of 0..3
-          Blanks,       \* blanks after `${{` (leading blanks of a quoted bare condition), subset of 0..2
+          Blanks,       \* blanks after `${{` (leading blanks of a quoted bare condition), subset of 0..3
           Gaps,         \* k blanks inserted in front of the target token, subset of 1..3 (0 is always generated)
           Lines,        \* k lines inserted above the document, subset of 1..3 (0 is always generated)
           DocStarts,    \* subset of BOOLEAN
+          Pads,         \* blanks at the start of a QUOTED scalar with placeholders, between its literal text and the
+                        \* first placeholder, and at its end; subset of 0..3
+          Negs,         \* subset of BOOLEAN: filter pattern written in its negated form `!pattern` (quoted only)
           CheckShiftLaw \* BOOLEAN: evaluate ShiftLaw (two more renderings per vector)
 
 Min(S) == CHOOSE x \in S : \A y \in S : x <= y
-ASSUME 0 \in PrefixLens /\ 0 \in Earliers /\ 0 \in Depths
+ASSUME 0 \in PrefixLens /\ 0 \in Earliers /\ 0 \in Depths /\ 0 \in Pads /\ FALSE \in Negs
 \* << k inserted blanks, k inserted lines >>: the unshifted placement, each shift alone, and the largest of both together
 Max(S) == CHOOSE x \in S : \A y \in S : x >= y
 Shifts == {<<0, 0>>} \cup {<<g, 0>> : g \in Gaps} \cup {<<0, l>> : l \in Lines}
@@ -414,7 +417,8 @@ EarlierSep == << "-", " b ", "" >>                             \* literal text a
 PrefixText == << "", "a", "ab", "abc", "abcd", "abcde" >>
 
 \* literal text in front of placeholder j (1-based, j = e + 1 is the placeholder under test)
-Lit(p, j) == IF j = 1 THEN PrefixText[p.plen + 1] ELSE EarlierSep[j - 1]
+Lit(p, j) == IF j = 1 THEN Sp(p.pad) \o PrefixText[p.plen + 1] \o (IF p.plen > 0 THEN Sp(p.pad) ELSE "")
+             ELSE EarlierSep[j - 1]
 RECURSIVE EarlierText(_, _)
 EarlierText(p, j) ==      \* text of everything up to and including clean placeholder j
   IF j = 0 THEN "" ELSE EarlierText(p, j - 1) \o Lit(p, j) \o "${{" \o EarlierPH[j] \o "}}"
@@ -428,19 +432,21 @@ LexPre(p) ==
   LET c == Cat(p.cls) IN
   IF p.slot \in BareSlots THEN Lead(p) \o c.b
   ELSE Lead(p) \o c.b \o (IF IsEnd(c) THEN " " ELSE "")
+\* pattern text in front of the offending character (the validator's column counts the `!` of a negated pattern)
+GlobPre(p) == (IF p.neg THEN "!" ELSE "") \o Cat(p.cls).b
 \* the target scalar: text of the value in front of the marked character, and the rest
 ValuePre(p) ==
   LET c == Cat(p.cls) IN
   CASE c.fam = "tok" /\ p.slot \in BareSlots -> LexPre(p)
     [] c.fam = "tok" -> EarlierText(p, p.earlier) \o Lit(p, p.earlier + 1) \o "${{" \o LexPre(p)
     [] c.fam = "ph" -> EarlierText(p, p.earlier) \o Lit(p, p.earlier + 1)
-    [] c.fam = "glob" -> c.b
+    [] c.fam = "glob" -> GlobPre(p)
     [] OTHER -> ""
 ValuePost(p) ==
   LET c == Cat(p.cls) IN
   CASE c.fam = "tok" /\ p.slot \in BareSlots -> IF IsEnd(c) THEN "" ELSE c.t \o c.a
-    [] c.fam = "tok" -> IF IsEnd(c) THEN "}}" ELSE c.t \o c.a \o " }}"
-    [] c.fam = "ph" -> "${{" \o Lead(p) \o c.b \o " }}"
+    [] c.fam = "tok" -> (IF IsEnd(c) THEN "}}" ELSE c.t \o c.a \o " }}") \o Sp(p.pad)
+    [] c.fam = "ph" -> "${{" \o Lead(p) \o c.b \o " }}" \o Sp(p.pad)
     [] c.fam = "glob" -> c.t \o c.a
     [] OTHER -> c.val
 TargetTag(p) == IF Cat(p.cls).fam = "kv" THEN "val" ELSE "tok"
@@ -572,6 +578,8 @@ Valid(p) ==
   /\ p.slot \in NoContextSlots => p.earlier = Min(Earliers)
   /\ (expr /\ (~bare \/ p.quote # "plain")) \/ p.ws = Min(Blanks)
   /\ (expr /\ p.slot = "matrix") \/ p.depth = Min(Depths)
+  /\ (expr /\ ~bare /\ p.slot \notin WholeSlots /\ p.quote # "plain") \/ p.pad = 0
+  /\ (c.fam = "glob" /\ p.quote # "plain") \/ p.neg = FALSE      \* a plain scalar starting with ! is a YAML tag
   \* k blanks in front of a block mapping key would change the indentation of the mapping
   /\ TargetIsBlockKey(p) => p.gap = 0
 
@@ -595,10 +603,11 @@ Init ==
 Place ==
   /\ st = "cls"
   /\ \E quote \in Quotes, style \in Styles, ind \in Indents, seqind \in SeqInds, depth \in Depths,
-        plen \in PrefixLens, earlier \in Earliers, ws \in Blanks, sh \in Shifts, ds \in DocStarts :
+        plen \in PrefixLens, earlier \in Earliers, ws \in Blanks, sh \in Shifts, ds \in DocStarts,
+        pad \in Pads, neg \in Negs :
        LET p == [cls |-> v.cls, slot |-> v.slot, quote |-> quote, style |-> style, ind |-> ind, seqind |-> seqind,
                  depth |-> depth, plen |-> plen, earlier |-> earlier, ws |-> ws, gap |-> sh[1], kl |-> sh[2],
-                 docstart |-> ds] IN
+                 docstart |-> ds, pad |-> pad, neg |-> neg] IN
        /\ Valid(p)
        /\ LET doc == Doc(p)
               r == Render(doc, Opts(p)) IN
@@ -620,7 +629,7 @@ MNode ==
 \* rule_glob.go globErrors: the validator's column is 1 + the number of characters in front of the offending one
 MGlob ==
   /\ st = "run" /\ m.pc = "start" /\ Fam = "glob"
-  /\ LET gcol == 1 + Len(Cat(v.p.cls).b) IN
+  /\ LET gcol == 1 + Len(GlobPre(v.p)) IN
      m' = [pc |-> "report", line |-> v.sc[1], col |-> v.sc[2] + QInc + (gcol - 1)]
   /\ UNCHANGED << st, v, tc >>
 
